@@ -24,6 +24,10 @@ Open Scope list_scope.
 Theorem C11_step_order : win_step_order = [0; 1; 2; 3; 4; 5; 6; 7].
 Proof. exact win_step_order_ok. Qed.
 
+Theorem C11_other_step_orders :
+  tr_step_order = [0; 1; 2; 3] /\ st_step_order = [0; 1; 2; 3; 4; 5] /\ st_state_index_from_end = 1.
+Proof. exact other_step_orders_ok. Qed.
+
 (* a stream whose guard time has reached t is not changed by anything that is stepped at time t *)
 Theorem C11_guard_freezes : forall fuel g i t st j ns,
   nth_error (gnodes st) j = Some ns -> t <= ntime ns ->
